@@ -338,4 +338,26 @@ FoldLawIn(mode, exprs, rows) ==
 FoldLawOn(exprs, rows) ==
     \A e \in exprs : /\ \A r \in rows : EvalR(Fold(e), r) = EvalR(e, r)
                      /\ IsOpConstant(e) => Fold(e).k = "c"
+
+(* ---- a scan: the compiled expression is evaluated once per row of a table, in table order.  A column holds one
+   constant PER ROW ("evaluated per row from columns holding the same constants"): the value for a row is
+   EvalX(e, that row) -- what the expression folds to over that row's constants --, whatever the other rows hold.
+   ScanX(mode, e, rows) is the mechanism:
+     "plain"       every row is evaluated on its own;
+     "memo-value"  the compiled expression remembers the value it computed for the cells of a row, keyed by the cells
+                   AS BQL VALUES (1 and TRUE are different keys): a legal optimisation;
+     "memo-host"   the same, keyed as the host language compares and hashes the cells (True == 1, hash(True) = hash(1)):
+                   a LATER row gets the value computed for an earlier, host-equal row -- kept as the deliberately
+                   broken mechanism of the non-vacuity run.
+   The property: ScanX(mode, e, rows)[i] = EvalX(e, rows[i]) for every table, every row of it. ---- *)
+HostVal(v) == IF v[1] = "b" THEN <<"i", v[2]>> ELSE v
+ScanKey(mode, row) == IF mode = "memo-host" THEN [j \in DOMAIN row |-> HostVal(row[j])] ELSE row
+ScanX(mode, e, rows) ==
+    [i \in 1..Len(rows) |->
+        IF mode = "plain" THEN EvalX(e, rows[i])
+        ELSE LET first == CHOOSE j \in 1..i : /\ ScanKey(mode, rows[j]) = ScanKey(mode, rows[i])
+                                               /\ \A h \in 1..(j - 1) : ScanKey(mode, rows[h]) # ScanKey(mode, rows[i])
+             IN EvalX(e, rows[first])]
+ScanLawIn(mode, exprs, tables) ==
+    \A e \in exprs : \A t \in tables : \A i \in 1..Len(t) : ScanX(mode, e, t)[i] = EvalX(e, t[i])
 =============================================================================
